@@ -284,7 +284,9 @@ def check_C09(ctx, deep=False):
     # black box: the plan of a go depends on THAT go's parameters only — every ordered pair of
     # parameter classes (movestogo small / absent / other, increment branch) in one process, with
     # and without ucinewgame in between; each delay is judged against its own plan
-    classes = [(350, 0, 1), (3100, 0, None), (60, 200, None), (1600, 0, 10), (9100, 0, None)]
+    # (the last class: clock at or below the margin and NO increment tokens at all => plan 0, whatever an
+    # earlier go of the session said about increments)
+    classes = [(350, 0, 1), (3100, 0, None), (60, 200, None), (1600, 0, 10), (9100, 0, None), (95, 0, None)]
     pairs = [(a, b, sep) for a in classes for b in classes if a != b for sep in ("", "ucinewgame")]
 
     def two(pr):
@@ -302,7 +304,9 @@ def check_C09(ctx, deep=False):
                     e.send("position startpos")
                     # the opponent's clock is a decoy with a plan of its own (800 ms): a plan made from the
                     # wrong side, or from a board that is not the one just set up, shows in the delay
-                    go = "go wtime %d btime %d winc %d binc %d" % (clock, 30100, inc, 0)
+                    go = "go wtime %d btime %d" % (clock, 30100)
+                    if inc:
+                        go += " winc %d binc %d" % (inc, 0)       # no increment: the tokens are omitted
                     if mtg:
                         go += " movestogo %d" % mtg
                     planned = plan(k, clock, inc, mtg)
@@ -310,7 +314,8 @@ def check_C09(ctx, deep=False):
                     if not r["answered"]:
                         return ("unanswered", pr, None, planned)
                     delay = (r["t_best"] - r["t_go"]) * 1000
-                    if not (planned - 5 <= delay <= planned + 300):
+                    # a zero plan is answered at once: a few tens of ms already are a plan of their own
+                    if not (planned - 5 <= delay <= planned + (300 if planned > 0 else 60)):
                         bad = (idx, delay, planned)
                         break
                 if bad is None:
@@ -439,6 +444,17 @@ def check_C15(ctx, deep=False):
         for _ in range(2):
             mal.append(mutate_fen(rnd, fen))
     ops += ["fen " + esc(m) for m in mal]
+    # overfull ranks, systematically: a rank text that already fills the eight files (digits expand) followed by
+    # 1..7 further piece letters, in every rank of the board: the extra squares lie in the mailbox's sentinel
+    # columns and beyond (must be an error, never a panic)
+    ranks = "rnbqkbnr/pppppppp/8/8/8/8/PPPPPPPP/RNBQKBNR".split("/")
+    for ri in range(8):
+        for full in ("8", "44", "53", "7R", "pppppppp", "1p1p1p1p", "611"):
+            for k in range(1, 8):
+                extra = "pPnRqKb"[:k] if (ri + k) % 2 else "PPPPPPP"[:k]
+                rr = list(ranks)
+                rr[ri] = full + extra
+                ops.append("fen " + esc("/".join(rr) + " w KQkq - 0 1"))
     res = C.run_ops(ops)
     attach_context(res)
     classes = {}
@@ -1261,6 +1277,46 @@ def check_C12(ctx, deep=False):
     n = (150 if q else 3000) * (3 if deep else 1)
     ops = search_positions(ctx, n, 50, "searchd 3", with_rep=False)
     ops += C.genops("rep", ctx.seed + 3, n * 2, 30, 4, "gen_all", "searchd_3")
+    # promotions AT THE ROOT, where the four promotions of one pawn move share from/to squares and the queen is
+    # not always best (stalemate tricks): pawn on the seventh, both kings within two squares of the promotion
+    # square, optionally a second pawn; both colours; positions the SPEC rejects are skipped
+    cnt = 0
+    for white in (True, False):
+        for f in range(1, 9):
+            for wk in [(f + dx, (8 if white else 1) + dy) for dx in (-2, -1, 0, 1, 2) for dy in ((0, -1, -2) if white else (0, 1, 2))]:
+                for bk in [(f + dx, (8 if white else 1) + dy) for dx in (-2, -1, 1, 2) for dy in ((0, -1, -2) if white else (0, 1, 2))]:
+                    for extra in (None, (f, 4 if white else 5), (f + 1, 4 if white else 5), (f - 1, 4 if white else 5)):
+                        if extra and not 1 <= extra[0] <= 8:
+                            continue
+                        cnt += 1
+                        if cnt % (5 if q else 1):
+                            continue
+                        board = {(f, 7 if white else 2): "P" if white else "p"}
+                        if not all(1 <= x <= 8 and 1 <= y <= 8 for x, y in (wk, bk)) or wk in board or bk in board or wk == bk:
+                            continue
+                        # legal positions only: kings not adjacent, the side that is not to move not in check by a pawn
+                        if max(abs(wk[0] - bk[0]), abs(wk[1] - bk[1])) <= 1:
+                            continue
+                        if abs(bk[0] - f) == 1 and bk[1] == (8 if white else 1):
+                            continue
+                        if extra and abs(bk[0] - extra[0]) == 1 and bk[1] == extra[1] + (1 if white else -1):
+                            continue
+                        board[wk] = "K" if white else "k"
+                        board[bk] = "k" if white else "K"
+                        if extra and extra not in board:
+                            board[extra] = "P" if white else "p"
+                        rows = []
+                        for y in range(8, 0, -1):
+                            row, run = "", 0
+                            for x in range(1, 9):
+                                ch = board.get((x, y))
+                                if ch is None:
+                                    run += 1
+                                else:
+                                    row += (str(run) if run else "") + ch
+                                    run = 0
+                            rows.append(row + (str(run) if run else ""))
+                        ops += ["pos position fen %s %s - - 0 1" % ("/".join(rows), "w" if white else "b"), "gen all", "searchd 3"]
     res = C.run_ops(ops)
     t2_search(ctx, res)
     for posr, genr, srs in group_by_pos(res):
@@ -1331,6 +1387,8 @@ def live_minimax_sessions(ctx, n):
 
 
 def judge_depths(ctx, posr, sr, k, nsucc):
+    if nsucc == 0:
+        return          # mate or stalemate at the root: the property speaks about non-terminal positions
     if sr["S"] == "-" or sr["I"] == "panic":
         if sr["I"] == "panic":
             ctx.fail("search-panic", where=[posr["op"], sr["op"]])
@@ -2204,6 +2262,8 @@ TRAFFIC = [
     ["setoption name Hash value 32", "foo bar", "", "ucinewgame", "position fen 8/P7/8/8/8/8/7k/K7 w - - 0 1", "go", "go"],
     ["position fen r3k2r/8/8/8/8/8/8/R3K2R w KQkq - 0 1 moves e1g1", "go wtime 150 btime 150", "go wtime 150 btime 150", "isready"],
     ["ucinewgame", "ucinewgame", "position startpos", "go movestogo 3", "debug on"],
+    # every go parameter given once, then a search without them: nothing of a go may outlive it
+    ["position startpos moves d2d4", "go wtime 400 btime 400 winc 700 binc 700 movestogo 2", "isready"],
 ]
 
 
@@ -2367,6 +2427,12 @@ def check_C16(ctx, deep=False):
     rnd = random.Random(ctx.seed)
     plans = [(p, rnd.choice(TRAFFIC), rnd.choice([0, 0, 1])) for p in probes]
     plans.append(("position startpos", TRAFFIC[1], 1))
+    # mode 2: `go wtime 90 btime 90` — clocks given but at or below the margin and no increment tokens: the plan
+    # is zero, so the answer is the fall-back move of a fresh engine whatever earlier go's said (increments,
+    # movestogo); after the traffic that gave every go parameter once, and after two others
+    for p in probes[:6]:
+        plans.append((p, TRAFFIC[5], 2))
+        plans.append((p, rnd.choice(TRAFFIC[:5]), 2))
     # probes WITHOUT a move list after a game over the same squares that repeated positions: a
     # repetition record that survives the new `position` shows as draw scores in the probe's search
     for o in C.genops("rep", ctx.seed + 5, 6 if q else 80, 12, 4):
@@ -2377,7 +2443,9 @@ def check_C16(ctx, deep=False):
 
     def probe(e, pos, timed, clock):
         e.send(pos)
-        if timed:
+        if timed == 2:
+            r = S.go_and_wait(e, "go wtime 90 btime 90", 12)
+        elif timed:
             r = S.go_and_wait(e, "go wtime %d btime %d" % (clock, clock), 12)
         else:
             r = S.go_and_wait(e, "go", 6)
@@ -2415,7 +2483,7 @@ def check_C16(ctx, deep=False):
         if fresh is None or after is None or again is None:
             ctx.fail("session-unanswered", position=pos, traffic=traffic)
             continue
-        if not timed:
+        if not timed or timed == 2:
             if fresh[0] != after[0] or after[0] != again[0]:
                 ctx.fail("zero-allowance-answer-depends-on-history", position=pos, traffic=traffic, fresh=fresh[0], after=after[0], again=again[0])
             else:
